@@ -45,7 +45,8 @@ class Contract:
         self.props: List[str] = []   # properties this contract serves (for evidence)
         self.floor = 0
         self.opaque_locals = False
-        self.exc_ensures_: List[Tuple[str, str, Callable]] = []   # (exc class, label, f(post-state at the raise))
+        self.exc_ensures_: List[Tuple[str, str, Callable]] = []
+        self.defines_: List[Tuple[str, Callable]] = []   # (exc class, label, f(post-state at the raise))
 
     # --- clause builders
     def requires(self, label: str, f: Callable) -> None: self.requires_.append((label, f))
@@ -57,6 +58,12 @@ class Contract:
         self.raises_.append((label or exc, exc, when, iff))
 
     def raises_never(self, *excs: str) -> None: self.never_.extend(excs)
+
+    def define(self, label: str, f: Callable) -> None:
+        """Defining property of a spec function used by this contract (e.g. 'cut(L, d) is the first index whose date is past d').
+        Assumed in the pre-state both when the function is verified and at its call sites; never asserted.  Must be a conservative
+        definition (the function exists and is unique); listed in the evidence under `definitions`."""
+        self.defines_.append((label, f))
 
     def raises_ensures(self, exc: str, label: str, f: Callable) -> None:
         """Exceptional postcondition: whenever `exc` (or a subclass) escapes, `f` holds of the state at the raise."""
@@ -87,8 +94,15 @@ class Invariant:
         self.clauses: List[Tuple[str, Callable]] = []
         self.extra_modifies: List[str] = []
         self.variant: Optional[Callable] = None
+        self.defs: List[Tuple[str, Callable]] = []
 
     def inv(self, label: str, f: Callable) -> None: self.clauses.append((label, f))
+
+    def unfold(self, label: str, f: Callable) -> None:
+        """Definitional unfolding of a recursive spec function (a fold) at the current loop position, e.g.
+        F(i+1, k) = F(i, k) + contribution(L[i], k) and F(0, k) = 0.  Assumed at the loop head, never asserted: it must be an instance
+        of the spec function's defining equations (listed in the evidence as definitions, not as assumptions about rp2)."""
+        self.defs.append((label, f))
 
 
 class Lemma:
